@@ -189,3 +189,25 @@ func TestRegressEmptyPartSetReader(t *testing.T) {
 	}
 	t.Fatalf("[%s] NewPartSetFromData(nil): IsComplete=%v, reassembly: %d bytes err=%v panic=%v (want 0 bytes, no panic)", idEmptyReader, ps.IsComplete(), len(got), err, pnc)
 }
+
+// TestRegressPartSetTotalWraps — finding C10-partset-total-wraps, shrunk: eleven bytes split with a part size just below
+// 2^32 are one part, not zero parts.
+func TestRegressPartSetTotalWraps(t *testing.T) {
+	data := []byte("hello world")
+	ps := types.NewPartSetFromData(data, 1<<32-5)
+	lib.Case("TestRegressPartSetTotalWraps", lib.FP("regress"), true)
+	var got []byte
+	if ps.Total() > 0 {
+		got, _ = io.ReadAll(ps.GetReader())
+	}
+	if ps.Total() == 1 && bytes.Equal(got, data) && ps.ByteSize() == int64(len(data)) {
+		return
+	}
+	if lib.IsKnown(idTotalWraps) {
+		lib.ObservedKnown(idTotalWraps)
+		t.Logf("known finding re-observed: part count wraps in uint32")
+		return
+	}
+	t.Fatalf("[%s] NewPartSetFromData(%q, 2^32-5): total=%d complete=%v hash=%X reassembles to %q — the part count (len+partSize-1)/partSize is computed in uint32 and wraps",
+		idTotalWraps, data, ps.Total(), ps.IsComplete(), ps.Hash(), got)
+}
